@@ -219,6 +219,19 @@ mod bb {
     /// non-final blocks; the uninterrupted decode, the stop-and-continue decode and a decoder
     /// rebuilt at every stop must end with the same status, output and consumed count.
     pub fn boundary_any_case(data: &[u8], room: usize) -> Result<u64, String> {
+        boundary_any_case_h(data, room, None)
+    }
+
+    /// `history`: the uninterrupted and the stop-and-continue decoder objects have decoded these
+    /// bytes before and were re-initialised (the rebuilt decoder is new by construction).
+    pub fn boundary_any_case_h(data: &[u8], room: usize, history: Option<&[u8]>) -> Result<u64, String> {
+        let used = |d: &mut DecompressorOxide| {
+            if let Some(h) = history {
+                let mut scratch = vec![0u8; 1024];
+                let _ = decompress(d, h, &mut scratch, 0, F_FLAT);
+                d.init();
+            }
+        };
         let run = |r: &mut DecompressorOxide, out: &mut Vec<u8>, mut ip: usize, mut op: usize, flags: u32| -> (TINFLStatus, usize, usize) {
             loop {
                 let (st, c, w) = decompress(r, &data[ip..], out, op, flags);
@@ -230,10 +243,12 @@ mod bb {
             }
         };
         let mut a = Box::new(DecompressorOxide::new());
+        used(&mut a);
         let mut out_a = vec![0u8; room];
         let (sa, ia, oa) = run(&mut a, &mut out_a, 0, 0, F_FLAT);
         // stop-and-continue
         let mut b = Box::new(DecompressorOxide::new());
+        used(&mut b);
         let mut out_b = vec![0u8; room];
         let (mut ip, mut op) = (0usize, 0usize);
         let mut stops = 0u64;
@@ -459,6 +474,70 @@ pub fn run(tier: &str) -> i32 {
             traces += r.2;
             any_stops += r.0;
         }
+        // the same comparison with decoder objects that have a history: every raw targeted violation
+        // (and a complete valid stream) decoded first, then init(); continuations = valid final blocks
+        let mut reused = 0u64;
+        {
+            use crate::gen::{dyn_spec_for, CodeShape, StreamBuilder};
+            use crate::refmodel::Token;
+            let toks: Vec<Token> = vec![Token::Lit(b'a'), Token::Lit(b'b'), Token::Match { len: 3, dist: 1 }, Token::Match { len: 4, dist: 2 }, Token::Lit(0xfe)];
+            let mut hs: Vec<(String, Vec<u8>)> = crate::props::c04::targeted_invalid_padded(None).into_iter().filter(|t| !t.2).map(|t| (t.0, t.1)).collect();
+            hs.push(("valid-stream".into(), miniz_oxide::deflate::compress_to_vec(b"a valid stream decoded earlier, a valid stream decoded earlier", 6)));
+            let mut cases: Vec<(String, Vec<u8>)> = vec![];
+            for first in 0..2 {
+                for align in [0usize, 3] {
+                    for tail in 0..3 {
+                        let mut b = StreamBuilder::new(None);
+                        if align != 0 {
+                            crate::gen::align_filler(&mut b, align);
+                        }
+                        if first == 0 {
+                            b.stored(b"stored block", false);
+                        } else {
+                            let spec = dyn_spec_for(&toks, CodeShape::Flat, CodeShape::Full).unwrap();
+                            b.dynamic(&spec, &toks, false);
+                        }
+                        match tail {
+                            0 => {
+                                b.fixed(&toks, true);
+                            }
+                            1 => {
+                                let spec = dyn_spec_for(&toks, CodeShape::ChainDeep(9), CodeShape::Flat).unwrap();
+                                b.dynamic(&spec, &toks, true);
+                            }
+                            _ => {
+                                b.stored(b"last", true);
+                            }
+                        }
+                        cases.push((format!("first={} align={} tail={}", ["stored", "dynamic"][first], align, ["fixed", "dynamic", "stored"][tail]), b.finish().bytes));
+                    }
+                }
+            }
+            let items: Vec<(usize, usize)> = (0..hs.len()).flat_map(|h| (0..cases.len()).map(move |c| (h, c))).collect();
+            let rres = par_for(items.len(), || (0u64, 0u64), |ix, acc| {
+                watchdog::tick(950_000 + ix as u64, 1);
+                let (hi, ci) = items[ix];
+                match guarded(|| bb::boundary_any_case_h(&cases[ci].1, 4096, Some(&hs[hi].1))) {
+                    Ok(Ok(st)) => {
+                        acc.0 += st;
+                        acc.1 += 1;
+                    }
+                    Ok(Err(e)) => rep.violation(
+                        &format!("C19/block-boundary/{}/reused-decoder", if e.contains("rebuilt") { "rebuild-differs" } else { "stop-and-continue-differs" }),
+                        format!("{} :: [{}] on decoders that had decoded [{}] and were re-initialised", e, cases[ci].0, hs[hi].0),
+                        json!({"kind": "boundary-any", "desc": cases[ci].0, "stream_hex": hex(&cases[ci].1), "history_hex": hex(&hs[hi].1), "history": hs[hi].0}),
+                    ),
+                    Err(p) => rep.violation("C19/block-boundary/panic", format!("panic {} [{}]", p, cases[ci].0), json!({"kind": "boundary-any", "desc": cases[ci].0, "stream_hex": hex(&cases[ci].1), "history_hex": hex(&hs[hi].1)})),
+                }
+            });
+            for r in rres {
+                states += r.0;
+                transitions += 2 * r.0 + 2;
+                traces += r.1;
+                reused += r.1;
+            }
+        }
+        rep.set("boundary_cases_on_reused_decoders", json!(reused));
         rep.set("boundary_streams_with_invalid_continuation", json!(anys.len()));
         rep.set("boundary_stops_before_invalid_continuation", json!(any_stops));
     }
@@ -485,7 +564,8 @@ pub fn replay(v: &Value) -> Option<String> {
         #[cfg(feature = "bb")]
         {
             let bytes = unhex(v["stream_hex"].as_str()?);
-            return match guarded(|| bb::boundary_any_case(&bytes, 80_000)) {
+            let hist = v["history_hex"].as_str().map(unhex);
+            return match guarded(|| bb::boundary_any_case_h(&bytes, 80_000, hist.as_deref())) {
                 Ok(Ok(_)) => None,
                 Ok(Err(e)) => Some(e),
                 Err(p) => Some(format!("panic {}", p)),
